@@ -232,6 +232,77 @@ def _blame(pol, cl, cr):
     return ",".join(parts) or "defaults"
 
 
+# -- left-hand hashes that take keys through a YAML merge key ----------------
+MK_LEFT = ("base: &b\n  k: %s\n  s: 1\nu:\n  <<: *b\n  own: 1\n"
+           "w:\n  <<: *b\nz: 0\n")
+MK_LEFT_VALUES = ["{x: 1}", "[1]", "[{id: 1, v: 1}]", "5", "!!set {m}"]
+MK_RIGHTS = ["u: {k: {y: 2}}\n", "u: {k: {x: 9}}\n", "u: {k: [2]}\n",
+             "u: {k: [{id: 1, v: 2}]}\n", "u: {k: 7}\n", "u: {own: 2}\n",
+             "u: {new: 1}\n", "u: {s: 3}\n", "u: {k: !!set {n}}\n",
+             "w: {k: {y: 2}}\nu: {own: 3}\n"]
+
+
+def check_mergekey_frame(ltext, rtext, pol, res):
+    """Frame clause only ("left-hand content not named by the right-hand
+    document keeps its value"): the right-hand document names keys of ONE
+    hash that inherits from an anchored hash through a merge key.  The
+    anchored hash itself and every other hash inheriting from it are not
+    named, so they read the same before and after - in memory and in the
+    serialised result."""
+    import io
+    from yamlpath.common import Parsers
+    from yamlpath.merger.exceptions import MergeException
+    ldoc, ok1 = gdocs.load(ltext)
+    rdoc, ok2 = gdocs.load(rtext)
+    if not (ok1 and ok2):
+        raise RuntimeError("merge-key family text does not load")
+    if pol.hashes == "right":
+        # RIGHT replaces the root hash whole: nothing of the left survives
+        res.label("mergekey:root-replaced")
+        return
+    named = [str(k) for k in rdoc]
+    frame = [k for k in ("base", "u", "w", "z") if k not in named]
+    before = {k: canon(ldoc[k]) for k in frame}
+    res.evaluations += 1
+    case = {"lhs": ltext, "rhs": rtext, "policy": pol.as_dict(),
+            "mergekey": True}
+    try:
+        merger = make_merger(ldoc, pol)
+        merger.merge_with(rdoc)
+    except MergeException:
+        res.label("mergekey:merge-error")
+        return
+    except Exception as exc:
+        etype, frame_, src = exc_site(exc)
+        res.fail({"clause": "never-a-crash", "exc": etype, "frame": frame_,
+                  "at": src[:60]}, case, "%s: %s" % (etype, exc))
+        return
+    views = [("memory", merger.data)]
+    try:
+        yaml = Parsers.get_yaml_editor()
+        merger.prepare_for_dump(yaml, "out.yaml")
+        buf = io.StringIO()
+        yaml.dump(merger.data, buf)
+        again, ok = gdocs.load(buf.getvalue())
+        if ok:
+            views.append(("reloaded", again))
+        else:
+            res.label("mergekey:result-does-not-reload")
+    except Exception:
+        res.label("mergekey:result-does-not-dump")
+    for view, data in views:
+        for k in frame:
+            now = canon(data[k]) if k in data else None
+            if now != before[k]:
+                res.fail({"clause": "unnamed-left-content-keeps-its-value",
+                          "shape": "merge-key-sibling:%s" % k, "view": view},
+                         case, "%s was %s is %s" % (
+                             k, json.dumps(before[k]), json.dumps(now)))
+                return
+    res.nontrivial()
+    res.label("mergekey:frame-kept")
+
+
 def policy_for(i, with_rules=True):
     h, a, o, s = ALL_POLICIES[i % len(ALL_POLICIES)]
     pol = mm.Policy(h, a, o, s)
@@ -261,6 +332,8 @@ def plan(tier, seed):
     for i in range(nsh):
         shards.append({"kind": "all", "part": i, "parts": nsh, "offset": seed,
                        "stride": 1500 if tier == "quick" else 60})
+    for i in range(4):
+        shards.append({"kind": "mergekey", "part": i, "parts": 4})
     return shards
 
 
@@ -268,6 +341,20 @@ def run_shard(shard):
     res = Result()
     dl = Deadline(shard.get("budget_s"))
     fam, base = corpus()
+    if shard["kind"] == "mergekey":
+        n = 0
+        for kv in MK_LEFT_VALUES:
+            for rt in MK_RIGHTS:
+                for j in range(len(ALL_POLICIES)):
+                    n += 1
+                    if n % shard["parts"] != shard["part"]:
+                        continue
+                    if dl.expired():
+                        res.truncated = True
+                        return res
+                    check_mergekey_frame(MK_LEFT % kv, rt,
+                                         policy_for(j, with_rules=False), res)
+        return res
     if shard["kind"] == "fam":
         texts = [gdocs.emit(s) for s in fam]
         # the same family with upper-case keys: rule and identity-key paths
@@ -330,5 +417,8 @@ def replay(case):
                      for k, v in p.get("rules", {}).items()},
                     {tuple(k.strip("/").split("/")): v
                      for k, v in p.get("keys", {}).items()})
-    check_merge(case["lhs"], case["rhs"], pol, res)
+    if case.get("mergekey"):
+        check_mergekey_frame(case["lhs"], case["rhs"], pol, res)
+    else:
+        check_merge(case["lhs"], case["rhs"], pol, res)
     return [r for _, recs in res.failures.values() for r in recs]
